@@ -147,6 +147,97 @@ class StrHooks(QHooks):
             self.returns.append((g1v(val) if val is not None else None, dict(E.store), E.trace.list()))
 
 
+def addrparse_sites(db, rep):
+    """qmail-smtpd addrparse() on concrete MAIL/RCPT arguments, against the quoting rules quote() writes by (RFC 821): inside <...>
+    (or after the colon), a backslash makes the next byte literal - that byte only -, double quotes toggle quoting and are dropped,
+    an unquoted terminator ends the address, a leading source route is skipped.  What qmail-remote's quote() produced for an
+    address comes back as that address."""
+    from rules import libtab as _lt
+    prog = db.program('qmail-smtpd')
+    fn = prog.fn('addrparse', 'qmail-smtpd.c')
+
+    def ref(arg):
+        i = arg.find(b'<')
+        if i >= 0:
+            term, rest = b'>', arg[i + 1:]
+        else:
+            term = b' '
+            j = arg.find(b':')
+            rest = arg[j + 1:] if j >= 0 else b''
+            rest = rest.lstrip(b' ')
+        if rest[:1] == b'@':
+            j = rest.find(b':')
+            rest = rest[j + 1:] if j >= 0 else b''
+        out, esc, q = b'', False, False
+        for k in range(len(rest)):
+            ch = rest[k:k + 1]
+            if esc:
+                out, esc = out + ch, False
+            elif not q and ch == term:
+                break
+            elif ch == b'\\':
+                esc = True
+            elif ch == b'"':
+                q = not q
+            else:
+                out += ch
+        return out
+    args = [b'FROM:<a@b.c>', b'FROM:<"a b"@x.y>', b'FROM:<"a\\"b"@x.y>', b'TO:<"a\\\\b"@x.y>', b'TO:<@r1.example,@r2.example:u@h.example>', b'FROM: u@h.example', b'FROM:<a\\>b@x.y>',
+            b'FROM:<"a>b"@x.y> SIZE=1', b'FROM:<>', b'TO:<"\\\r"@x.y>', b'TO:<"a\\"b\\"c d"@x.y>', b'TO:<\\"q@x.y>', b'TO:<"<>"@x.y>', b'FROM:<"a\\\\"@x.y>']
+    bad = None
+    for arg in args:
+        H = type('AP', (_lt.SAConc, _lt.Conc), {})('addrparse')
+        st = {0: fs(('&', 'ARG[0]')), 'G:liphostok': fs(0)}
+        st.update(_lt.conc_string_cells('ARG', arg))
+        _lt._run_conc(db, rep, prog, fn, st, 'addrparse', H)
+        if len(H.ends) != 1:
+            raise AnalysisBroken('addrparse(%r): %d ends' % (arg, len(H.ends)))
+        end, val, tr = H.ends[0]
+        n_ = _lt.one(end.get('G:addr.len'))
+        got = bytes((_lt.one(end.get('G:addr.s[%d]' % k)) or 0) & 255 for k in range(n_)) if isinstance(n_, int) and 0 <= n_ < 300 else None
+        want = ref(arg) + b'\0'
+        if (got != want or _lt.one(val) != 1) and bad is None:
+            bad = 'argument %r: the address taken is %r (result %s); by the quoting rules it is %r - the address the client quoted does not come back' % (arg, got, _lt.one(val), want)
+    return {'addrparse:unquotes-what-quote()-quoted(backslash-covers-one-byte)': (bad is None, 'qmail-smtpd.c:addrparse', bad or '%d MAIL/RCPT arguments' % len(args), [])}
+
+
+def rwnodot_sites(db, rep):
+    """qmail-inject rwnodot() on concrete (token-reversed) addresses: the default domain is appended exactly when the HOST part -
+    the tokens before the @ in the reversed list - holds neither a dot nor a domain literal; dots in the local part do not count"""
+    from rules import libtab as _lt
+    prog = db.program('qmail-inject')
+    fn = prog.fn('rwnodot', 'qmail-inject.c')
+    u = db.unit('qmail-inject.c')
+    T = {k: u.macro_int('TOKEN822_' + k) for k in ('ATOM', 'DOT', 'AT', 'LITERAL', 'QUOTE')}
+    if any(v is None for v in T.values()):
+        raise AnalysisBroken('TOKEN822_* constants not found')
+    cases = [('first.last@host', ['ATOM', 'AT', 'ATOM', 'DOT', 'ATOM'], True), ('joe@host.com', ['ATOM', 'DOT', 'ATOM', 'AT', 'ATOM'], False), ('joe@[1.2.3.4]', ['LITERAL', 'AT', 'ATOM'], False),
+             ('joe@host', ['ATOM', 'AT', 'ATOM'], True), ('"a.b"@host', ['ATOM', 'AT', 'QUOTE'], True), ('a.b.c@host', ['ATOM', 'AT', 'ATOM', 'DOT', 'ATOM', 'DOT', 'ATOM'], True),
+             ('a.b@host.com', ['ATOM', 'DOT', 'ATOM', 'AT', 'ATOM', 'DOT', 'ATOM'], False)]
+    bad = None
+    for text, toks, extend in cases:
+        class RH(_lt.SAConc, _lt.Conc):
+            def prim_token822_readyplus(self_, E, x, args):
+                return [Outcome(ret=fs(1))]
+        H = RH('rwnodot')
+        st = {0: fs(('&', 'AD')), 'AD.t': fs(('&', 'TK[0]')), 'AD.len': fs(len(toks)), 'G:defaultdomain.t': fs(('&', 'DD[0]')), 'G:defaultdomain.len': fs(2),
+              'DD[0].type': fs(T['ATOM']), 'DD[0].s': fs(('&', 'DDTXT[0]')), 'DD[0].slen': fs(2), 'DD[1].type': fs(T['DOT']), 'DD[1].s': fs(0), 'DD[1].slen': fs(0)}
+        for k, t_ in enumerate(toks):
+            st.update({'TK[%d].type' % k: fs(T[t_]), 'TK[%d].s' % k: fs(('&', 'TXT%d[0]' % k)), 'TK[%d].slen' % k: fs(1)})
+        _lt._run_conc(db, rep, prog, fn, st, 'rwnodot', H)
+        if len(H.ends) != 1:
+            raise AnalysisBroken('rwnodot(%s): %d ends' % (text, len(H.ends)))
+        end = H.ends[0][0]
+        n_ = _lt.one(end.get('AD.len'))
+        got = [_lt.one(end.get('TK[%d].type' % k)) for k in range(n_)] if isinstance(n_, int) and 0 <= n_ < 20 else None
+        want = ([T['DOT'], T['ATOM']] if extend else []) + [T[t_] for t_ in toks]
+        if got != want and bad is None:
+            inv = {v: k for k, v in T.items()}
+            bad = 'address %s: after the default-domain step the (reversed) token list is %s; documented: %s - the default domain is %s because the host part %s' % (
+                text, [inv.get(g, g) for g in (got or [])], [inv[w] for w in want], 'appended' if extend else 'not appended', 'has no dot' if extend else 'is qualified already')
+    return {'rwnodot:default-domain-iff-host-part-has-no-dot-or-literal': (bad is None, 'qmail-inject.c:rwnodot', bad or '%d addresses' % len(cases), [])}
+
+
 def run(ctx):
     db, rep = ctx.db, ctx.report
     prog = db.program('qmail-inject')
@@ -648,6 +739,10 @@ def run(ctx):
     r4.expect_min(4)
 
     # ---------------------------------------------------------------- 3. rwgeneric order
+    r6 = rep.rule('C17.6-smtp-unquoting', 'R-TABLE', 'qmail-smtpd addrparse() on concrete MAIL/RCPT arguments: the address taken is what the RFC 821 quoting rules say (backslash covers exactly the next byte, double quotes toggle, unquoted terminator ends, source route skipped) - so an address quoted by quote() for the wire is parsed back to itself')
+    for inst_, v_ in sorted(addrparse_sites(db, rep).items()):
+        r6.check(v_[0], inst_, v_[1], v_[2], v_[3])
+    r6.expect_min(1)
     r5 = rep.rule('C17.5-rewrite-order', 'R-ORDER', 'rwgeneric: route, extra dot, extra at, no-at (default host), plus, no-dot (default domain), in that order')
     rg = prog.fn('rwgeneric', 'qmail-inject.c')
     STEPS = ['rwroute', 'rwextradot', 'rwextraat', 'rwnoat', 'rwplus', 'rwnodot']
@@ -679,4 +774,6 @@ def run(ctx):
     rep.count_states(e_.states, e_.transitions)
     order = sorted(set(hrg.seqs))
     r5.check(order == [tuple(STEPS)], 'rewrite-steps-in-documented-order', 'qmail-inject.c:rwgeneric', 'steps applied to an ordinary address a@b: %s; documented: %s' % (order, STEPS))
+    for inst_, v_ in sorted(rwnodot_sites(db, rep).items()):
+        r5.check(v_[0], inst_, v_[1], v_[2], v_[3])
     rep.assume('the inverse property quote/parse for all addresses and RFC 822 grammar coverage are not decided; only the table agreements that are necessary for it')
